@@ -222,6 +222,7 @@ func (pc *PolyCtx) Of(t *Term, memo map[int]*Poly) (*Poly, error) {
 				p = newPoly()
 				p.addMono(Mono{vars: []int{a}, exps: []*big.Int{new(big.Int).Set(t.k)}}, bi(1))
 			} else if t.k.BitLen() <= 2 {
+				b = fb
 				p = polyConst(bi(1))
 				for i := int64(0); i < t.k.Int64(); i++ {
 					p, err = pc.mul(p, b)
@@ -388,6 +389,7 @@ func AlgProve(facts []*Term, goal *Term) (bool, string) {
 		return true, "identity after expansion"
 	}
 	flat := flattenFacts(facts)
+	var spanFacts []*Poly
 	// strategy 1: goal in the linear span of the assumed equalities/congruences
 	{
 		var fps []*Poly
@@ -410,6 +412,7 @@ func AlgProve(facts []*Term, goal *Term) (bool, string) {
 				fps = append(fps, fp)
 			}
 		}
+		spanFacts = fps
 		if len(fps) > 0 && pc.spanProve(d, fps) {
 			return true, fmt.Sprintf("in the linear span of %d assumed equalities", len(fps))
 		}
@@ -514,16 +517,24 @@ func AlgProve(facts []*Term, goal *Term) (bool, string) {
 		rhs := pc.toTerm(q)
 		cur = substitute(cur, map[int]*Term{best: rhs}, map[int]*Term{})
 		used++
-		d, err = pc.Of(cur, map[int]*Poly{})
-		if err == nil {
-			d, err = pc.fold(d)
+		nd, err2 := pc.Of(cur, map[int]*Poly{})
+		if err2 == nil {
+			nd, err2 = pc.fold(nd)
 		}
-		if err != nil {
-			return false, err.Error()
+		if err2 != nil {
+			break // too large for the goal-directed strategy; fall through to the normal-form strategy
 		}
+		d = nd
 		if d.isZero() {
 			return true, fmt.Sprintf("normal form 0 after %d eliminations", used)
 		}
+		if len(d.coef) <= 600 && len(spanFacts) > 0 && pc.spanProve(d, spanFacts) {
+			return true, fmt.Sprintf("in the linear span of the assumed equalities after %d eliminations", used)
+		}
+	}
+	// strategy 3: normalise goal and all facts by the full definitional substitution, then linear span
+	if ok, why := algNormalSpan(flat, gx, gm); ok {
+		return true, why
 	}
 	return false, "residual: " + pc.String(d)
 }
@@ -729,6 +740,10 @@ func (pc *PolyCtx) substPoly(p *Poly, x int, q *Poly) (*Poly, error) {
 // modulus is given) of the polynomials of the assumed facts, treating monomials as
 // independent unknowns. Since every fact polynomial is 0 (resp. ≡ 0), so is d.
 func (pc *PolyCtx) spanProve(d *Poly, facts []*Poly) bool {
+	return pc.spanProveLimit(d, facts, 400)
+}
+
+func (pc *PolyCtx) spanProveLimit(d *Poly, facts []*Poly, sizeLimit int) bool {
 	type row map[string]*big.Rat
 	toRow := func(p *Poly) row {
 		r := row{}
@@ -783,7 +798,7 @@ func (pc *PolyCtx) spanProve(d *Poly, facts []*Poly) bool {
 		}
 	}
 	for _, f := range facts {
-		if len(f.coef) == 0 || len(f.coef) > 400 {
+		if len(f.coef) == 0 || len(f.coef) > sizeLimit {
 			continue
 		}
 		r := toRow(f)
@@ -934,4 +949,215 @@ func (pc *PolyCtx) divPoly(x *Term, k *big.Int, memo map[int]*Poly) (*Poly, erro
 		return r, nil
 	}
 	return pc.atom(TS.intern(ODiv, SInt, new(big.Int).Set(k), "", x)), nil
+}
+
+// substPoly2 substitutes variables in t. Definitions derived from exact equalities (exact)
+// may be used anywhere; definitions derived from congruences (congr) only in polynomial
+// positions (under +, *, ^), because only there a congruent value may replace a variable.
+func substRestricted(t *Term, exact, congr map[int]*Term, polyPos bool, memoP, memoN map[int]*Term) *Term {
+	if r, ok := exact[t.id]; ok {
+		return r
+	}
+	if polyPos {
+		if r, ok := congr[t.id]; ok {
+			return r
+		}
+	}
+	if len(t.args) == 0 {
+		return t
+	}
+	memo := memoN
+	if polyPos {
+		memo = memoP
+	}
+	if r, ok := memo[t.id]; ok {
+		return r
+	}
+	childPoly := polyPos && (t.op == OAdd || t.op == OMul || t.op == OPow)
+	args := make([]*Term, len(t.args))
+	changed := false
+	for i, a := range t.args {
+		args[i] = substRestricted(a, exact, congr, childPoly, memoP, memoN)
+		if args[i] != a {
+			changed = true
+		}
+	}
+	r := t
+	if changed {
+		r = rebuild(t, args)
+	}
+	memo[t.id] = r
+	return r
+}
+
+// algNormalSpan: every fact that can serve as the definition of its newest atom is turned
+// into a substitution (latest fact first); goal and remaining facts are normalised by these
+// substitutions and the goal is then sought in the linear span of the normalised facts.
+func algNormalSpan(flat []*Term, gx *Term, gm *big.Int) (bool, string) {
+	pc := NewPolyCtx(gm)
+	exact := map[int]*Term{}
+	congr := map[int]*Term{}
+	var residual []*Term
+	defined := map[int]bool{}
+	for i := len(flat) - 1; i >= 0; i-- {
+		x, m, ok := asCongruence(flat[i])
+		if !ok {
+			continue
+		}
+		if m != nil && (gm == nil || new(big.Int).Mod(m, gm).Sign() != 0) {
+			continue
+		}
+		if termSize(x, 3000) >= 3000 {
+			continue
+		}
+		e, err := pc.Of(x, map[int]*Poly{})
+		if err != nil || e.isZero() {
+			continue
+		}
+		best := -1
+		var bestInv *big.Int
+		for k, co := range e.coef {
+			mo := e.mono[k]
+			if len(mo.vars) != 1 || mo.exps[0].Cmp(bi(1)) != 0 {
+				continue
+			}
+			xv := mo.vars[0]
+			cnt := 0
+			for _, m2 := range e.mono {
+				if m2.degreeOf(xv) != nil {
+					cnt++
+				}
+			}
+			if cnt != 1 {
+				continue
+			}
+			at := pc.atoms[xv]
+			if at.op != OVar && at.op != OSelect && at.op != OUF {
+				continue
+			}
+			if gm != nil && new(big.Int).Add(co, bi(1)).Cmp(gm) == 0 {
+				co = bi(-1)
+			}
+			if co.CmpAbs(bi(1)) != 0 {
+				continue
+			}
+			if xv > best {
+				best, bestInv = xv, new(big.Int).Set(co)
+			}
+		}
+		if best < 0 || defined[best] {
+			residual = append(residual, x)
+			continue
+		}
+		defined[best] = true
+		rest := newPoly()
+		for k, co := range e.coef {
+			mo := e.mono[k]
+			if len(mo.vars) == 1 && mo.vars[0] == best {
+				continue
+			}
+			rest.addMono(mo, co)
+		}
+		q := newPoly()
+		q.addPoly(rest, new(big.Int).Neg(bestInv))
+		if gm != nil {
+			q.reduceMod(gm)
+		}
+		rhs := pc.toTerm(q)
+		if m == nil {
+			exact[best] = rhs
+		} else {
+			congr[best] = rhs
+		}
+	}
+	normalise := func(t *Term) *Term {
+		t = stripMod(t, gm, map[int]*Term{})
+		for iter := 0; iter < 200; iter++ {
+			n := substRestricted(t, exact, congr, true, map[int]*Term{}, map[int]*Term{})
+			if n == t {
+				return t
+			}
+			t = n
+		}
+		return t
+	}
+	pc.limit = 4000000
+	g := normalise(gx)
+	d, err := pc.Of(g, map[int]*Poly{})
+	if err == nil {
+		d, err = pc.fold(d)
+	}
+	if err != nil {
+		return false, "normal-span: " + err.Error()
+	}
+	if d.isZero() {
+		return true, fmt.Sprintf("normal form 0 under %d definitional substitutions", len(exact)+len(congr))
+	}
+	var fps []*Poly
+	for _, r := range residual {
+		n := normalise(r)
+		fp, err := pc.Of(n, map[int]*Poly{})
+		if err != nil {
+			continue
+		}
+		if fp, err = pc.fold(fp); err == nil && !fp.isZero() && len(fp.coef) <= 200000 {
+			fps = append(fps, fp)
+		}
+	}
+	if os.Getenv("GOVC_DEBUG") != "" {
+		fmt.Fprintf(os.Stderr, "alg3: goal poly %d monomials, %d residual facts, %d exact defs, %d congr defs\n", len(d.coef), len(fps), len(exact), len(congr))
+		fmt.Fprintf(os.Stderr, "alg3: goal: %s\n", pc.String(d)[:min(len(pc.String(d)), 1500)])
+		for _, fp := range fps {
+			st := pc.String(fp)
+			fmt.Fprintf(os.Stderr, "alg3: fact(%d): %s\n", len(fp.coef), st[:min(len(st), 600)])
+		}
+	}
+	if len(fps) > 0 && pc.spanProveBig(d, fps) {
+		return true, fmt.Sprintf("in the span of %d normalised facts (%d definitional substitutions)", len(fps), len(exact)+len(congr))
+	}
+	return false, "normal-span: no"
+}
+
+// spanProveBig is spanProve without the per-fact size limit.
+func (pc *PolyCtx) spanProveBig(d *Poly, facts []*Poly) bool {
+	return pc.spanProveLimit(d, facts, 1<<30)
+}
+
+func min(a, b int) int {
+	if a < b {
+		return a
+	}
+	return b
+}
+
+// stripMod replaces, in polynomial positions, Mod(x, k) by x when the goal modulus divides k
+// (Mod(x,k) = x - k*floor(x/k) is congruent to x modulo every divisor of k).
+func stripMod(t *Term, gm *big.Int, memo map[int]*Term) *Term {
+	if gm == nil {
+		return t
+	}
+	if r, ok := memo[t.id]; ok {
+		return r
+	}
+	r := t
+	switch t.op {
+	case OMod:
+		if new(big.Int).Mod(t.k, gm).Sign() == 0 {
+			r = stripMod(t.args[0], gm, memo)
+		}
+	case OAdd, OMul, OPow:
+		args := make([]*Term, len(t.args))
+		changed := false
+		for i, a := range t.args {
+			args[i] = stripMod(a, gm, memo)
+			if args[i] != a {
+				changed = true
+			}
+		}
+		if changed {
+			r = rebuild(t, args)
+		}
+	}
+	memo[t.id] = r
+	return r
 }
